@@ -80,11 +80,16 @@ CallParts(T) == <<
     [t : {T}, kind : {"r1"}, op : Red1Ext, i : Lead4(NL(T, "r1")), j : {0}, k : 1..24],           \* every ordering of 4 values
     [t : {T}, kind : {"r1"}, op : Red1Ext, i : 1..NL(T, "r1"), j : Lead4(NL(T, "r1")), k : 25..28],  \* tie patterns
     [t : {T}, kind : {"r2"}, op : Red2, i : 1..NL(T, "r2"), j : Lead4(NL(T, "r2")), k : {0}],
+    \* placed extremes: lane i runs over the whole range (MIN vs MAX), lane j differs by one (k = 0, 2) or not at all (k = 1: the sum is
+    \* exactly the unsigned maximum), one more lane differs by one (k = 2), the others are equal -- the running sum of a distance
+    \* overflows exactly at a chosen lane, whatever the order of the two
+    [t : {T}, kind : {"r2p"}, op : Red2, i : 1..4, j : 1..4, k : 0..2],
     [t : {T}, kind : {"x"},  op : {"cross"}, i : 1..NL(T, "x"), j : Lead4(NL(T, "x")), k : {0}],
     [t : {T}, kind : {"f"},  op : {"sum", "product"}, i : Lead4(NL(T, "f")), j : Lead4(NL(T, "f")), k : 0..3] >>
 CmpPart(T) == [t : {T}, kind : {"b"}, op : CmpOps, i : Lead4(NL(T, "b")), j : 1..NL(T, "b"), k : {0}]
 InCalls(c) == IF Only = "cmp" THEN \E T \in Types : c \in CmpPart(T)
-              ELSE \E T \in Types : \E n \in 1..14 : c \in CallParts(T)[n]
+              ELSE /\ \E T \in Types : \E n \in 1..15 : c \in CallParts(T)[n]
+                   /\ (c.kind = "r2p" => c.i # c.j)
 
 Args(c) ==
     LET T == c.t IN
@@ -92,6 +97,12 @@ Args(c) ==
       [] c.kind = "r1" -> IF c.k <= 24 THEN <<[l \in 1..4 |-> VA(T, c.kind, c.i)[Perm4[c.k][l]]]>>
                           ELSE <<Pat(c.k, Lat(T, c.kind)[c.i], Lat(T, c.kind)[c.j])>>
       [] c.kind \in {"b", "r2", "x"} -> <<VA(T, c.kind, c.i), VB(T, c.kind, c.j)>>
+      [] c.kind = "r2p" ->
+            LET third == CHOOSE l \in 1..4 : l # c.i /\ l # c.j /\ \A m \in 1..4 : (m # c.i /\ m # c.j) => l <= m IN
+            << [l \in 1..4 |-> IF l = c.i THEN TMin(T) ELSE ZOf(7)],
+               [l \in 1..4 |-> IF l = c.i THEN TMax(T)
+                                ELSE IF l = c.j THEN (IF c.k = 1 THEN ZOf(7) ELSE ZOf(8))
+                                ELSE IF l = third /\ c.k = 2 THEN ZOf(6) ELSE ZOf(7)] >>
       [] c.kind = "vs" -> <<VA(T, c.kind, c.i), Lat(T, c.kind)[c.j]>>
       [] c.kind = "sv" -> <<Lat(T, c.kind)[c.j], VA(T, c.kind, c.i)>>
       [] c.kind = "m"  -> <<VA(T, c.kind, c.i), VO(T, c.kind, c.j)>>
@@ -130,7 +141,7 @@ Eval(c) ==
                 [] c.op = "max_element"     -> ScalarOut(Val(v[MaxPos(v) + 1]))
                 [] c.op = "min_position"    -> ScalarOut(Val(ZOf(MinPos(v))))
                 [] c.op = "max_position"    -> ScalarOut(Val(ZOf(MaxPos(v))))))
-      [] c.kind = "r2" -> Prof(LAMBDA p : PerN(LAMBDA n : LET v == Take(a[1], n) w == Take(a[2], n) IN
+      [] c.kind \in {"r2", "r2p"} -> Prof(LAMBDA p : PerN(LAMBDA n : LET v == Take(a[1], n) w == Take(a[2], n) IN
               CASE c.op = "dot"                -> ScalarOut(Dot(T, p, v, w))
                 [] c.op = "distance_squared"   -> ScalarOut(DistanceSquared(T, p, v, w))
                 [] c.op = "manhattan_distance" -> ScalarOut(Manhattan(T, p, v, w))
@@ -144,7 +155,7 @@ EncV(v) == [i \in 1..Len(v) |-> ZEnc(v[i])]
 EncArgs(c) ==
     LET a == Args(c) IN
     CASE c.kind \in {"u", "r1"} -> <<EncV(a[1])>>
-      [] c.kind \in {"b", "r2", "x", "m", "shv"} -> <<EncV(a[1]), EncV(a[2])>>
+      [] c.kind \in {"b", "r2", "r2p", "x", "m", "shv"} -> <<EncV(a[1]), EncV(a[2])>>
       [] c.kind \in {"vs", "sh"} -> <<EncV(a[1]), ZEnc(a[2])>>
       [] c.kind = "sv" -> <<ZEnc(a[1]), EncV(a[2])>>
       [] c.kind = "t"  -> <<EncV(a[1]), EncV(a[2]), EncV(a[3])>>
@@ -156,7 +167,7 @@ Next == Return
 Spec == Init /\ [][Next]_vars
 
 Emit == ph = "ret" =>
-    PrintT(<<"CASE", ToJson([fam |-> "int", ty |-> TyName(call.t), kind |-> call.kind, op |-> call.op,
+    PrintT(<<"CASE", ToJson([fam |-> "int", ty |-> TyName(call.t), kind |-> IF call.kind = "r2p" THEN "r2" ELSE call.kind, op |-> call.op,
                              args |-> EncArgs(call), exp |-> res])>>)
 
 \* ---- theorems about the integer model, checked on every returned binary state ----
